@@ -169,9 +169,24 @@ def report(ctx, key: str, observed: dict, what: str, replay, cap: int = 4) -> No
 
 
 def violation_nf(ctx, key: str, what: str, replay, cap: int = 2) -> None:
+    """A broken correspondence / proof obligation for which *this part* has no failing input.  Deferred: run.py emits
+    it at the end (`flush_nf`) only if no part of the run found a concrete failing input (README, verdict logic 3)."""
     caps = ctx.__dict__.setdefault("_c05_caps", {})
     caps[key] = caps.get(key, 0) + 1
     if caps[key] > cap:
         ctx.coverage["violations_not_printed (cap per class)"] = ctx.coverage.get("violations_not_printed (cap per class)", 0) + 1
         return
-    ctx.violation(what, replay, found_input=False)
+    ctx.__dict__.setdefault("_c05_pending_nf", []).append((what, replay))
+
+
+def flush_nf(ctx) -> None:
+    pending = ctx.__dict__.get("_c05_pending_nf", [])
+    ctx.coverage["broken_correspondences"] = [w[:200] for w, _ in pending]
+    if not pending:
+        return
+    if ctx.violations:
+        # concrete failing inputs were reported: the broken ties are listed in the evidence, not as extra lines
+        print("  (also: %d model/implementation correspondence(s) broken — see coverage.broken_correspondences)" % len(pending), flush=True)
+        return
+    for what, replay in pending:
+        ctx.violation(what, replay, found_input=False)
